@@ -530,9 +530,13 @@ func genScalar(c *Chooser, g GenCfg) *Val {
 		return vn(float64(c.Range(-2, 9)))
 	case 1:
 		if c.Int(1000) < g.Awkward {
-			if c.Chance(1, 40) {
-				// a text above a thousand characters (a certificate, a log excerpt)
-				return vs(strings.Repeat([]string{"ab", "lorem ipsum ", "é", "1.0."}[c.Int(4)], 1100/[]int{2, 12, 1, 4}[c.Int(4)]+c.Int(40)))
+			if c.Chance(1, 120) {
+				// a text just above a thousand characters (a certificate, a log
+				// excerpt); not longer: rendering a string replacement runs a
+				// character LCS that is quadratic in time and memory
+				unit := []string{"ab", "lorem ipsum ", "é", "1.0."}[c.Int(4)]
+				n := len([]rune(unit))
+				return vs(strings.Repeat(unit, (1030+c.Int(120))/n+1))
 			}
 			return vs(pickStr(c, awkwardStrs))
 		}
